@@ -109,6 +109,52 @@ static void run_library(const Cfg &c, const Runs &runs, const Str &s, Exec &ex, 
     ex.used = sc.used;
 }
 
+// ---------------------------------------------------------------- the same calls through the exported C entry point tsgDreamSample() (what the Python module uses)
+extern "C" void tsgDreamSample(int form, int num_burnup, int num_collect, void (*distribution)(int, int, const double[], double[], int*), void* state_pntr,
+                               void *domain_grid, double domain_lower[], double dommain_upper[], int (*domain_callback)(int, const double[]),
+                               const char* iupdate_type, double iupdate_magnitude, void (*iupdate_callback)(int, double[], int*),
+                               int dupdate_percent, double (*dupdate_callback)(), const char* random_type, int random_seed, double (*random_callback)(), int *err);
+static std::function<void(const std::vector<double>&, std::vector<double>&)> *cw_pdf = nullptr; static std::function<bool(const std::vector<double>&)> *cw_inside = nullptr;
+static std::function<void(std::vector<double>&)> *cw_user = nullptr; static std::function<double(void)> *cw_rng = nullptr; static int cw_d = 1;
+static void cwf_pdf(int m, int d, const double x[], double y[], int *err){ std::vector<double> cand(x, x + (size_t) m * d), vals((size_t) m); (*cw_pdf)(cand, vals); std::copy(vals.begin(), vals.end(), y); *err = 0; }
+static int cwf_inside(int d, const double x[]){ std::vector<double> v(x, x + d); return (*cw_inside)(v) ? 1 : 0; }
+static void cwf_user(int d, double x[], int *err){ std::vector<double> v(x, x + d); (*cw_user)(v); std::copy(v.begin(), v.end(), x); *err = 0; }
+static void cwf_noop(int, double[], int *err){ *err = 0; }
+static double cwf_rng(){ return (*cw_rng)(); }
+static double cwf_one(){ return 1.0; }
+static void run_library_c(const Cfg &c, const Runs &runs, const Str &s, Exec &ex, bool start_second){
+    using namespace TasDREAM;
+    Script sc; sc.reset(s);
+    Log &log = ex.log; log.ev.reserve(64); log.data.reserve(256);
+    std::function<double(void)> rng = [&]()->double{ double v = sc.next(); log.add('R', false, &v, 1, nullptr, 0); return v; };
+    DreamDomain lib_cube = hypercube(std::vector<double>((size_t) c.d, -1.0), std::vector<double>((size_t) c.d, 1.0));
+    std::function<bool(const std::vector<double>&)> inside = [&](const std::vector<double> &x)->bool{ bool a = (c.dom == 0) ? lib_cube(x) : my_domain(c, x.data()); log.add('I', a, x.data(), x.size(), nullptr, 0); return a; };
+    std::function<void(const std::vector<double>&, std::vector<double>&)> pdf = [&](const std::vector<double> &cand, std::vector<double> &vals)->void{ size_t m = cand.size() / (size_t) c.d; if (c.pdf == 3) posterior_eval(c, cand, vals); else for(size_t i=0;i<m && i<vals.size();i++) vals[i] = my_pdf(c, &cand[i * (size_t) c.d]); log.add('P', false, cand.data(), cand.size(), vals.data(), std::min(vals.size(), m)); };
+    std::function<void(std::vector<double>&)> user = [&](std::vector<double> &x)->void{ double before[MAXD] = {0, 0}; std::copy_n(x.begin(), std::min<size_t>(x.size(), MAXD), before); double u = rng(); my_user_update(c, x.data(), u); log.add('U', false, before, x.size(), x.data(), x.size()); };
+    cw_pdf = &pdf; cw_inside = &inside; cw_user = &user; cw_rng = &rng; cw_d = c.d;
+    TasmanianDREAM state(c.n, c.d); state.setState(start_second ? second_state(c) : init_state(c));
+    for(size_t ri=0; ri<runs.size(); ri++){
+        auto &r = runs[ri]; int err = 0;
+        ex.run_begin.push_back(log.ev.size()); ex.draws_begin.push_back(sc.pos);
+        const char *ut = (c.upd == 1) ? "uniform" : (c.upd == 2) ? "gaussian" : "null"; double mag = (c.upd == 1) ? MAG_UNIFORM : (c.upd == 2) ? MAG_GAUSS : 0.0;
+        int percent = (c.diff == 0) ? 0 : (c.diff == 1) ? -1 : 50;
+        tsgDreamSample(c.form ? 1 : 0, r.first, r.second, cwf_pdf, (void*) &state, nullptr, nullptr, nullptr, cwf_inside, ut, mag, (c.upd == 3) ? cwf_user : cwf_noop, percent, cwf_one, "callback", 7, cwf_rng, &err);
+        if (err != 0){ ex.thrown = "tsgDreamSample returned error " + std::to_string(err); break; }
+        ex.obs.emplace_back(); RunObs &o = ex.obs.back(); o.state = state.getChainState(); if (state.isPDFReady()) for(int i=0;i<c.n;i++) o.pv.push_back(state.getPDFvalue((size_t) i));
+        o.hist = state.getHistory(); o.hpdf = state.getHistoryPDF(); o.rate = state.getAcceptanceRate(); o.nhist = state.getNumHistory();
+        ex.run_end.push_back(log.ev.size());
+    }
+    ex.used = sc.used;
+}
+// C entry point and C++ call: same callbacks with the same arguments in the same order, same final books
+static bool same_exec(const Exec &a, const Exec &b){
+    if (a.thrown != b.thrown || a.log.ev.size() != b.log.ev.size() || a.log.data.size() != b.log.data.size() || a.obs.size() != b.obs.size()) return false;
+    for(size_t i=0;i<a.log.ev.size();i++) if (a.log.ev[i].t != b.log.ev[i].t) return false;
+    if (!a.log.data.empty() && memcmp(a.log.data.data(), b.log.data.data(), a.log.data.size() * sizeof(double)) != 0) return false;
+    for(size_t r=0;r<a.obs.size();r++) if (!same_bits(a.obs[r].state, b.obs[r].state) || !same_bits(a.obs[r].pv, b.obs[r].pv) || !same_bits(a.obs[r].hist, b.obs[r].hist) || !same_bits(a.obs[r].hpdf, b.obs[r].hpdf) || a.obs[r].nhist != b.obs[r].nhist) return false;
+    return true;
+}
+
 // ---------------------------------------------------------------- reference model: one DREAM iteration (differential evolution proposal + Metropolis)
 // The same stepper either *replays* a logged execution (every callback answer is taken from the log and the arguments the library
 // passed are compared with what the model expects) or *simulates* (answers come from the environment functions; used to name the
@@ -305,7 +351,10 @@ static void outcome_of(const Cfg &c, const Exec &ex, const Ref &ref, Delta &d){
 static void exec_edit_case(const Cfg &c, const Case &k, Delta &d);
 static void exec_case(const Cfg &c, const Case &k, Delta &d){
     if (k.kind == 'E'){ exec_edit_case(c, k, d); return; }
-    if (k.kind != 'C'){ Exec ex; run_library(c, k.runs, k.s, ex, 0, k.second != 0); d.execs++; Ref ref(c, true, k.second != 0); check_exec(c, k, ex, d, ref); outcome_of(c, ex, ref, d); return; }
+    if (k.kind != 'C'){ Exec ex; run_library(c, k.runs, k.s, ex, 0, k.second != 0); d.execs++; Ref ref(c, true, k.second != 0); check_exec(c, k, ex, d, ref); outcome_of(c, ex, ref, d);
+        if (ex.thrown.empty()){ Exec ec; run_library_c(c, k.runs, k.s, ec, k.second != 0); d.execs++; d.evals++;
+            if (!same_exec(ex, ec)) d.viol(std::string("C15:c-interface-differs:") + (c.form ? "logform" : "regform") + ":update" + std::to_string(c.upd), case_json(c, k), "tsgDreamSample() and SampleDREAM() differ on the same environment: C++ " + std::to_string(ex.log.ev.size()) + " callbacks, final state " + (ex.obs.empty() ? std::string("-") : vstr(ex.obs.back().state)) + "; C " + (ec.thrown.empty() ? "" : ec.thrown + ", ") + std::to_string(ec.log.ev.size()) + " callbacks, final state " + (ec.obs.empty() ? std::string("-") : vstr(ec.obs.back().state))); }
+        return; }
     // splitting: first the single run of the combined length (everything collected, so every iteration is visible), then the two runs
     int b1 = k.runs[0].first, c1 = k.runs[0].second, b2 = k.runs[1].first, c2 = k.runs[1].second, T = b1 + c1 + b2 + c2;
     Case joint{'J', {{0, T}}, k.s}; Exec ej; run_library(c, joint.runs, joint.s, ej); d.execs++;
